@@ -18,6 +18,7 @@ package main
 // with a duplicated key, a second YAML document, trailing text after a JSON object.
 
 import (
+	"encoding/json"
 	"fmt"
 	"strings"
 
@@ -179,6 +180,7 @@ func c20Disagreements(outs []c20Out, want bool) []string {
 }
 
 func c20CfgFamily(class string) string {
+	class = strings.TrimPrefix(class, "gen-")
 	switch {
 	case strings.HasPrefix(class, "v0-"):
 		return "v0"
@@ -188,4 +190,69 @@ func c20CfgFamily(class string) string {
 		return "version"
 	}
 	return "v1"
+}
+
+// crontab pools, calibrated against the real ParseCrontab of the unchanged tree
+var c20GoodCrontabs = []string{"* * * * *", "*/5 * * * *", "0 3 * * 1", "* * * * * *", "30 2 1 1 *", "0 0 * * 0", "@hourly",
+	"@every 5m", "1,2,3 * * * *", "0-30/5 * * * *", "0 12 * * MON-FRI", "15 10 ? * *", "0 0 1 JAN *", "*/1 * * * * *"}
+var c20BadCrontabs = []string{"every now and then", "* * *", "61 * * * *", "", "nope", "* * * * * * * *", "*/0 * * * *",
+	"x y z w v", "5-1 * * * *", "* * * * 8", "* 25 * * *", "* * 32 * *", "* * * 13 *", "@sometimes", "*/x * * * *",
+	"* * * * MOONDAY", "-1 * * * *", "0 3 * *", "@every soon"}
+
+// c20GenSchedules generates a hook configuration whose only possible defect is an invalid crontab in
+// some `schedule` entries: legacy v0 format (no configVersion) or v1, JSON or YAML, 1-4 entries,
+// optionally next to an onStartup binding. invalid => at least one entry gets a crontab of the bad pool.
+func c20GenSchedules(rng *Rng, invalid bool) (kind, class, text string) {
+	v1 := rng.Bool()
+	n := rng.Range(1, 4)
+	bad := make([]bool, n)
+	if invalid {
+		bad[rng.Intn(n)] = true
+		for i := range bad {
+			if rng.Chance(20) {
+				bad[i] = true
+			}
+		}
+	}
+	var scheds []map[string]any
+	var shown []string
+	for i := 0; i < n; i++ {
+		ct := PickOne(rng, c20GoodCrontabs)
+		if bad[i] {
+			ct = PickOne(rng, c20BadCrontabs)
+		}
+		s := map[string]any{"crontab": ct}
+		if rng.Bool() {
+			s["name"] = fmt.Sprintf("sched-%d", i)
+		}
+		if rng.Chance(30) {
+			s["allowFailure"] = rng.Bool()
+		}
+		if v1 && rng.Chance(25) {
+			s["queue"] = "q-sched"
+		}
+		scheds = append(scheds, s)
+		shown = append(shown, strings.ReplaceAll(ct, " ", "_"))
+	}
+	doc := map[string]any{"schedule": scheds}
+	ver := "v0"
+	if v1 {
+		doc["configVersion"] = "v1"
+		ver = "v1"
+	}
+	if rng.Chance(40) {
+		doc["onStartup"] = rng.Range(1, 30)
+	}
+	j, _ := json.Marshal(doc)
+	text, syn := string(j), "json"
+	if rng.Bool() {
+		if y, err := yaml.JSONToYAML(j); err == nil {
+			text, syn = strings.TrimRight(string(y), "\n"), "yaml"
+		}
+	}
+	kind = "ok"
+	if invalid {
+		kind = "invalid"
+	}
+	return kind, fmt.Sprintf("gen-%s-schedule[%s]/%s", ver, strings.Join(shown, "|"), syn), text
 }
